@@ -211,8 +211,11 @@ func init() {
 						if r.Bool() {
 							hole.Reverse()
 						}
-						poly = append(poly, hole)
 						wantP -= geo.Area(hole)
+						if r.P(1, 3) {
+							hole = hole[:4] // (without the repeated closing vertex, whatever the outer ring's spelling)
+						}
+						poly = append(poly, hole)
 					}
 					pa := geo.Area(poly)
 					c.Eval()
@@ -393,6 +396,7 @@ func init() {
 						{"multi polygon", orb.MultiPolygon{{orb.Ring(other)}, {closed}}, oE + cE, oH + cH},
 						{"bound", bound, brE, brH},
 						{"collection", orb.Collection{other, bound, orb.Point{1, 0}, orb.Collection{ls}}, oE + brE + lE, oH + brH + lH},
+						{"collection holding the same nested collection twice", func() orb.Geometry { leg := orb.Collection{ls}; return orb.Collection{leg, other, leg, orb.Collection{leg}} }(), oE + 3*lE, oH + 3*lH},
 					} {
 						c.Evals(2)
 						if got := geo.Length(lc.g); !relClose(got, lc.wE, 1e-12, 0) {
